@@ -14,7 +14,7 @@ func init() {
 	register(&propDef{
 		ID:          "C14",
 		Run:         ruleC14,
-		Explanation: "Decides, for selective mode, that (R1) the keep-in-clear decision of the scalar step does not read the value: the guard of the selective pass-through consists only of boolean parameters, option globals and the path matcher applied to a key path that carries no input value; the array-sibling test and the search-operator rewrite look at values only through the '$'-string / FieldName-position tests; (R2) the decision sees the whole path: at every call site of a function whose key-path parameter reaches the matcher, the path argument is the caller's own path, append(path, key...) or - only where the path is empty - a one-element fallback; document roots start with the empty path; sub-pipeline restarts are listed exceptions; (R3) the matcher applies the configured regexp to every element of the whole path and the setter compiles the flag value unchanged. NOT decided: which names a given regexp matches; Atlas Search stages (the statement allows over-redaction there).",
+		Explanation: "Decides, for selective mode, that (R1) the keep-in-clear decision of the scalar step does not read the value: the guard of the selective pass-through consists only of boolean parameters, option globals and the path matcher applied to a key path that carries no input value; the array-sibling test and the search-operator rewrite look at values only through the '$'-string / FieldName-position tests; (R2) the decision sees the whole path: at every call site of a function whose key-path parameter reaches the matcher, the path argument is the caller's own path, append(path, key...) or - only where the path is empty - a one-element fallback; document roots start with the empty path; sub-pipeline restarts are listed exceptions; (R3) the matcher applies the configured regexp to every element of the whole path and the setter compiles the flag value unchanged. R2 also: no zone function writes into the backing array of a key-path parameter. NOT decided: which names a given regexp matches; Atlas Search stages (the statement allows over-redaction there).",
 		RuleText:    "obligations = selective pass-through returns (guard atoms), call sites carrying a matcher-reaching key path (about 30), matcher loop shape",
 	})
 }
@@ -290,6 +290,7 @@ func ruleC14(c *Ctx, r *Report) {
 	sort.Strings(selNames)
 	r.Analysed["matcher_reaching_path_params"] = selNames
 	r.Floor("C14-R2", 15, "call sites carrying a matcher-reaching key path (about 30 today)")
+	pathSliceNotWrittenRule(c, r, p, "C14-R2", "the names an ancestor passes down are changed under its feet: the selective decision of its later children sees a path that is not theirs")
 	var fns []*ssa.Function
 	for f := range p.Zone {
 		fns = append(fns, f)
@@ -454,4 +455,82 @@ func (p *Prov) pathMatcherFn() *ssa.Function {
 		}
 	}
 	return out
+}
+
+// pathSliceNotWrittenRule: a key path ([]string) received as a parameter is shared with
+// the caller (and, through append's spare capacity, with the caller's other children). No
+// function of the zone writes into the backing array of such a parameter: no element store
+// through it and no append onto a truncated sub-slice of it (append(s[:i], ...) shifts the
+// tail of the caller's slice in place).
+func pathSliceNotWrittenRule(c *Ctx, r *Report, p *Prov, rule, consequence string) {
+	var fns []*ssa.Function
+	for f := range p.Zone {
+		fns = append(fns, f)
+	}
+	sort.Slice(fns, func(i, j int) bool { return fns[i].Name() < fns[j].Name() })
+	n := 0
+	isStrSlice := func(t types.Type) bool {
+		sl, ok := t.Underlying().(*types.Slice)
+		if !ok {
+			return false
+		}
+		b, ok := sl.Elem().Underlying().(*types.Basic)
+		return ok && b.Kind() == types.String
+	}
+	var fromParam func(v ssa.Value, depth int) *ssa.Parameter
+	fromParam = func(v ssa.Value, depth int) *ssa.Parameter {
+		if depth > 6 {
+			return nil
+		}
+		switch x := v.(type) {
+		case *ssa.Parameter:
+			if isStrSlice(x.Type()) {
+				return x
+			}
+		case *ssa.Slice:
+			return fromParam(x.X, depth+1)
+		case *ssa.Phi:
+			for _, e := range x.Edges {
+				if prm := fromParam(e, depth+1); prm != nil {
+					return prm
+				}
+			}
+		}
+		return nil
+	}
+	for _, f := range fns {
+		hasPathParam := false
+		for _, prm := range f.Params {
+			if isStrSlice(prm.Type()) {
+				hasPathParam = true
+			}
+		}
+		if !hasPathParam {
+			continue
+		}
+		n++
+		var bad []string
+		allInstrs(f, func(i ssa.Instruction) {
+			switch x := i.(type) {
+			case *ssa.Call:
+				if calleeKey(&x.Call) != "builtin append" {
+					return
+				}
+				if sl, ok := x.Call.Args[0].(*ssa.Slice); ok && sl.High != nil && sl.Max == nil {
+					if prm := fromParam(sl.X, 0); prm != nil {
+						bad = append(bad, fmt.Sprintf("%s: append onto a truncated sub-slice of parameter %s overwrites the caller's elements in place", c.InstrPos(i), prm.Name()))
+					}
+				}
+			case *ssa.Store:
+				if ia, ok := x.Addr.(*ssa.IndexAddr); ok {
+					if prm := fromParam(ia.X, 0); prm != nil {
+						bad = append(bad, fmt.Sprintf("%s: element store through parameter %s", c.InstrPos(i), prm.Name()))
+					}
+				}
+			}
+		})
+		r.Check(len(bad) == 0, rule, f.Name()+":path-parameter-not-written", c.Pos(f.Pos()), "no store into / in-place append onto its []string parameter(s)",
+			strings.Join(bad, "; ")+" - "+consequence)
+	}
+	r.Analysed["functions_with_path_parameters"] = n
 }
